@@ -101,12 +101,12 @@ func c25(r *engine.Run) {
 	copy(ref.Pubkey[:], pk[:])
 
 	var evals int64
-	nontrivial := &shardSet{}
+	nontrivial := &hashBag{}
 	outcomes := engine.NewCounter()
 	defectSets := engine.NewSet()
 
 	// one evaluation of the real Verify against the reference
-	check := func(loc map[string]int, mirror uint32, version int32, extra []byte, descf func() string) {
+	check := func(loc map[string]int, nt *[]uint64, mirror uint32, version int32, extra []byte, descf func() string) {
 		desc := ""
 		atomic.AddInt64(&evals, 1)
 		mname := "other"
@@ -123,12 +123,10 @@ func c25(r *engine.Run) {
 		}
 		defects, want := wi.Verify(ref, wi.Intro{Mirror: mirror, Version: version, Extra: extra})
 		if len(defects) > 0 {
-			h := fnv.New128a()
+			h := fnv.New64a()
 			h.Write([]byte{byte(mirror), byte(mirror >> 8), byte(mirror >> 16), byte(mirror >> 24), byte(version), byte(version >> 8)}) //nolint
-			h.Write(extra)                                                                                                                //nolint
-			var k [16]byte
-			copy(k[:], h.Sum(nil))
-			nontrivial.Add(k)
+			h.Write(extra)                                                                                                              //nolint
+			*nt = append(*nt, h.Sum64())
 			if len(defects) > 1 {
 				defectSets.Add(strings.Join(defects, "+"))
 			}
@@ -193,10 +191,12 @@ func c25(r *engine.Run) {
 	engine.ParFor(len(pubkeys)*len(uas), func(i int) {
 		p, u := pubkeys[i/len(uas)], uas[i%len(uas)]
 		loc := map[string]int{}
+		var nt []uint64
 		defer func() {
 			for k, v := range loc {
 				outcomes.AddN(k, v)
 			}
+			nontrivial.AddAll(nt)
 		}()
 		for _, b := range burns {
 			for _, s := range sizes {
@@ -214,7 +214,7 @@ func c25(r *engine.Run) {
 						}
 						for _, m := range mirrors {
 							for _, v := range versions {
-								check(loc, m, v, extra, desc)
+								check(loc, &nt, m, v, extra, desc)
 							}
 						}
 					}
@@ -243,20 +243,24 @@ func c25(r *engine.Run) {
 			r.Broken("alphabet: base extra %s is not valid for the reference: %v", base.Name, d)
 		}
 		loc := map[string]int{}
+		var nt []uint64
 		for n := 0; n <= len(base.B); n++ {
 			n := n
-			check(loc, c25OtherMirror, c25MinVersion, base.B[:n], func() string { return fmt.Sprintf("%s truncated to %d of %d bytes", base.Name, n, len(base.B)) })
+			check(loc, &nt, c25OtherMirror, c25MinVersion, base.B[:n], func() string { return fmt.Sprintf("%s truncated to %d of %d bytes", base.Name, n, len(base.B)) })
 		}
 		for k, v := range loc {
 			outcomes.AddN(k, v)
 		}
+		nontrivial.AddAll(nt)
 		b := base
 		engine.ParFor(len(b.B), func(pos int) {
 			loc := map[string]int{}
+			var nt []uint64
 			defer func() {
 				for k, v := range loc {
 					outcomes.AddN(k, v)
 				}
+				nontrivial.AddAll(nt)
 			}()
 			for v := 0; v < 256; v++ {
 				if byte(v) == b.B[pos] {
@@ -265,18 +269,20 @@ func c25(r *engine.Run) {
 				e := append([]byte{}, b.B...)
 				e[pos] = byte(v)
 				v := v
-				check(loc, c25OtherMirror, c25MinVersion, e, func() string { return fmt.Sprintf("%s with byte %d = 0x%02x", b.Name, pos, v) })
+				check(loc, &nt, c25OtherMirror, c25MinVersion, e, func() string { return fmt.Sprintf("%s with byte %d = 0x%02x", b.Name, pos, v) })
 			}
 		})
 	}
 	// no extra at all
 	{
 		loc := map[string]int{}
-		check(loc, c25OtherMirror, c25MinVersion, nil, func() string { return "no extra" })
-		check(loc, c25OwnMirror, c25MinVersion-1, nil, func() string { return "no extra" })
+		var nt []uint64
+		check(loc, &nt, c25OtherMirror, c25MinVersion, nil, func() string { return "no extra" })
+		check(loc, &nt, c25OwnMirror, c25MinVersion-1, nil, func() string { return "no extra" })
 		for k, v := range loc {
 			outcomes.AddN(k, v)
 		}
+		nontrivial.AddAll(nt)
 	}
 	verifyEvals := evals
 	tVerify := r.Elapsed().Seconds()
@@ -309,18 +315,18 @@ func c25(r *engine.Run) {
 	_ = sets
 	pprof.StopCPUProfile() // no-op unless VERIF_CPUPROFILE is set (main.go)
 	r.Finish(engine.Coverage{
-		"evaluations":            verifyEvals + gate.evals,
-		"distinct_nontrivial":    nontrivial.Len() + gate.nontrivial,
-		"rule":                   "(a) one evaluation = one (mirror, version, Extra) through the real Verify; non-trivial = distinct introductions with at least one defect. (b) one evaluation = one message sequence on a fresh connection through the real daemon; non-trivial = distinct sequences in which at least one message is refused, ignored or disconnects",
-		"samples":                smp,
-		"exhaustive":             true,
-		"outcome_histogram":      outcomes.Map(),
-		"verify_product_evals":   productEvals,
-		"verify_mutation_evals":  verifyEvals - productEvals,
+		"evaluations":                       verifyEvals + gate.evals,
+		"distinct_nontrivial":               nontrivial.Distinct() + gate.nontrivial,
+		"rule":                              "(a) one evaluation = one (mirror, version, Extra) through the real Verify; non-trivial = distinct introductions (by 64-bit FNV hash of mirror, version, Extra) with at least one defect. (b) one evaluation = one message sequence on a fresh connection through the real daemon; non-trivial = distinct sequences in which at least one message is refused, ignored or disconnects",
+		"samples":                           smp,
+		"exhaustive":                        true,
+		"outcome_histogram":                 outcomes.Map(),
+		"verify_product_evals":              productEvals,
+		"verify_mutation_evals":             verifyEvals - productEvals,
 		"verify_distinct_multi_defect_sets": defectSets.Len(),
-		"phase_seconds":          map[string]float64{"verify_product": tProduct, "verify_mutations": tVerify - tProduct, "gate": r.Elapsed().Seconds() - tVerify},
-		"gate_sequences":         gate.evals,
-		"gate_messages_fed":      gate.messages,
+		"phase_seconds":                     map[string]float64{"verify_product": tProduct, "verify_mutations": tVerify - tProduct, "gate": r.Elapsed().Seconds() - tVerify},
+		"gate_sequences":                    gate.evals,
+		"gate_messages_fed":                 gate.messages,
 		"alphabet": map[string]interface{}{
 			"mirrors": len(mirrors), "versions": len(versions), "pubkey_parts": len(pubkeys), "burn": len(burns), "max_size": len(sizes), "precision": len(precs),
 			"user_agents": names(uas), "genesis_lengths": len(genesis), "mutation_bases": len(bases), "gate_alphabet": gate.alphabet, "gate_depth": gate.depth,
